@@ -18,6 +18,7 @@ import (
 	"sync/atomic"
 	"syscall"
 	"time"
+	"unsafe"
 
 	"github.com/nsqio/nsq/verifharness/hlib"
 )
@@ -327,8 +328,50 @@ func runMetaCase(bin, dir string, mc *metaCase) {
 			time.Sleep(200 * time.Microsecond)
 		}
 	}()
-	acked := map[string]bool{}   // object -> last acknowledged paused flag
-	pending := ""                // object with a request in flight when the daemon died
+	var vanishMu sync.Mutex
+	vanished := ""
+	// ... and the final name, once there, is never taken away again: the kernel reports every rename-away and unlink
+	// in the data path (inotify), so this does not depend on catching the instant by polling
+	rwg.Add(1)
+	go func() {
+		defer rwg.Done()
+		fd, err := syscall.InotifyInit1(syscall.IN_NONBLOCK | syscall.IN_CLOEXEC)
+		if err != nil {
+			return
+		}
+		defer syscall.Close(fd)
+		if _, err := syscall.InotifyAddWatch(fd, data, syscall.IN_MOVED_FROM|syscall.IN_DELETE); err != nil {
+			return
+		}
+		buf := make([]byte, 64*1024)
+		for {
+			n, err := syscall.Read(fd, buf)
+			if n <= 0 || err != nil {
+				if atomic.LoadInt32(&stopRead) != 0 {
+					return
+				}
+				time.Sleep(2 * time.Millisecond)
+				continue
+			}
+			for off := 0; off+syscall.SizeofInotifyEvent <= n; {
+				ev := (*syscall.InotifyEvent)(unsafe.Pointer(&buf[off]))
+				name := strings.TrimRight(string(buf[off+syscall.SizeofInotifyEvent:off+syscall.SizeofInotifyEvent+int(ev.Len)]), "\x00")
+				if name == "nsqd.dat" {
+					what := "unlinked"
+					if ev.Mask&syscall.IN_MOVED_FROM != 0 {
+						what = "renamed away"
+					}
+					vanishMu.Lock()
+					vanished = what
+					vanishMu.Unlock()
+					return
+				}
+				off += syscall.SizeofInotifyEvent + int(ev.Len)
+			}
+		}
+	}()
+	acked := map[string]bool{} // object -> last acknowledged paused flag
+	pending := ""              // object with a request in flight when the daemon died
 	nops := 40 + rng.Intn(40)
 	if mc.Kind == "second" {
 		nops = 10
@@ -344,6 +387,10 @@ func runMetaCase(bin, dir string, mc *metaCase) {
 			script = append(script, "/topic/delete?topic=t2")
 		}
 		nops = len(script)
+	}
+	secondBurst := mc.Kind == "secondburst"
+	if secondBurst {
+		mc.Kind = "ackburst" // same burst, same oracles; in addition other nsqd processes are pointed at the data path meanwhile
 	}
 	if mc.Kind == "idleburst" || mc.Kind == "ackburst" {
 		// set-up, then a burst of CONCURRENT admin requests, each on its own object, all acknowledged
@@ -361,6 +408,25 @@ func runMetaCase(bin, dir string, mc *metaCase) {
 		}
 		var bw sync.WaitGroup
 		var amu sync.Mutex
+		stopSecond := int32(0)
+		var sw sync.WaitGroup
+		if secondBurst {
+			// a supervisor that keeps starting another nsqd on the data path in use: every attempt must be refused AND
+			// must leave the owner's files alone
+			sw.Add(1)
+			go func() {
+				defer sw.Done()
+				for k := 0; k < 12 && atomic.LoadInt32(&stopSecond) == 0; k++ {
+					c2, err2 := startChild(bin, data, filepath.Join(dir, fmt.Sprintf("trace-second%d.ndjson", k)), "")
+					if err2 == nil {
+						mc.failf("a second nsqd started on a data path that is in use (it listens on %s)", c2.http)
+					}
+					if c2 != nil {
+						c2.kill()
+					}
+				}
+			}()
+		}
 		for i := 0; i < n; i++ {
 			bw.Add(1)
 			go func(i int) {
@@ -375,7 +441,11 @@ func runMetaCase(bin, dir string, mc *metaCase) {
 				case 0, 1:
 					// a few pause/unpause toggles of this goroutine's own channel: the last acknowledged value counts
 					val, okAll := false, true
-					for j := 0; j < 3+i%4; j++ {
+					rounds := 3 + i%4
+					if secondBurst {
+						rounds += 24 // keep the owner writing for as long as the other processes keep coming
+					}
+					for j := 0; j < rounds; j++ {
 						verb := "pause"
 						if j%2 == 1 {
 							verb = "unpause"
@@ -386,6 +456,28 @@ func runMetaCase(bin, dir string, mc *metaCase) {
 							break
 						}
 						val = verb == "pause"
+						// acknowledged => on disk NOW (nobody else touches this goroutine's channel): a kill at this very
+						// instant must find it (NsqdMeta!AckedPausePersisted, evaluated on the real file)
+						if b, err := os.ReadFile(filepath.Join(data, "nsqd.dat")); err == nil {
+							if names, perr := topoFromDoc(b); perr == nil {
+								onDisk, listed := false, false
+								for _, nm := range names {
+									if nm == obj {
+										listed = true
+									}
+									if nm == obj+"!P" {
+										onDisk = true
+									}
+								}
+								if listed && onDisk != val {
+									amu.Lock()
+									mc.failf("POST /channel/%s for %s was answered 200 but nsqd.dat read right after the answer has paused=%v: a kill now loses an acknowledged %s", verb, obj, onDisk, verb)
+									amu.Unlock()
+									okAll = false
+									break
+								}
+							}
+						}
 					}
 					if okAll {
 						amu.Lock()
@@ -398,6 +490,8 @@ func runMetaCase(bin, dir string, mc *metaCase) {
 			}(i)
 		}
 		bw.Wait()
+		atomic.StoreInt32(&stopSecond, 1)
+		sw.Wait()
 		mc.Ops += n
 		nops = 0
 	}
@@ -559,6 +653,38 @@ func runMetaCase(bin, dir string, mc *metaCase) {
 		if strings.Join(idleTopo, ",") != key {
 			mc.failf("[idle] the daemon was idle with %v; after SIGKILL and restart it has %v", idleTopo, loaded)
 		}
+	}
+	// the final name was taken away at some moment: what does a daemon find that starts on the data path as it looks
+	// at such a moment (everything that is there now, but no nsqd.dat)?  Only if THAT loses the topology is it a defect.
+	vanishMu.Lock()
+	vw := vanished
+	vanishMu.Unlock()
+	if vw != "" && len(fileTopo) > 0 {
+		c2.kill()
+		cp := data + "-vanish"
+		os.MkdirAll(cp, 0755)
+		if ents, err := os.ReadDir(data); err == nil {
+			for _, e := range ents {
+				if e.IsDir() || e.Name() == "nsqd.dat" || strings.HasSuffix(e.Name(), ".lock") {
+					continue
+				}
+				if b, err := os.ReadFile(filepath.Join(data, e.Name())); err == nil {
+					os.WriteFile(filepath.Join(cp, e.Name()), b, 0644)
+				}
+			}
+		}
+		c3, err := startChild(bin, cp, filepath.Join(dir, "trace3.ndjson"), "")
+		if err == nil {
+			_, b3 := c3.req("GET", "/stats?format=json")
+			l3, err3 := topoFromStats(b3)
+			c3.kill()
+			if err3 == nil && (len(l3) == 0 || !visited[strings.Join(l3, ",")]) {
+				mc.failf("nsqd.dat was %s while the daemon was running (kernel notification); a daemon started on the data path as it is at such a moment -- all other files present, no nsqd.dat -- comes up with %v instead of a set the first one had persisted (last: %v)", vw, l3, fileTopo)
+			}
+		} else if c3 != nil {
+			c3.kill()
+		}
+		os.RemoveAll(cp)
 	}
 	// acknowledged pause/unpause survive
 	has := map[string]bool{}
